@@ -72,17 +72,24 @@ func c04(c *Ctx) {
 		c.R.Harness(err.Error())
 		return
 	}
-	tzs := []string{"UTC"}
-	if c.Thorough() {
-		tzs = []string{"UTC", "Asia/Kolkata", "America/St_Johns"}
-	}
+	// the emitted timestamp codecs go through time.Time: the process's local zone must not matter.
+	// Thorough runs everything under three zones; quick runs the features that mention a Timestamp
+	// under the two non-UTC zones as well (one east, one west of Greenwich, both with a fractional offset)
+	tzs := []string{"UTC", "Asia/Kolkata", "America/St_Johns"}
 	for _, tz := range tzs {
+		c04tzFilter = nil
+		if !c.Thorough() && tz != "UTC" {
+			c04tzFilter = func(f corpus.Feature) bool {
+				return strings.HasPrefix(f.Ann, "ts_") || strings.Contains(f.ID, "timestamp") || f.ID == "none/messages/mixed"
+			}
+		}
 		p, err := startPool(fl.Bin, 8, c.Scratch+"/race-c04", "TZ="+tz)
 		if err != nil {
 			c.R.Harness("cannot start lab: " + err.Error())
 			return
 		}
 		c04run(c, fl, p, tz)
+		c04tzFilter = nil
 		p.Close()
 		for _, pn := range p.Panics {
 			c.R.Harness("driver panic in work item: " + firstLines(pn, 12))
@@ -121,6 +128,9 @@ func c04cross(c *Ctx) {
 
 func c04run(c *Ctx, fl *featLab, p *pool, tz string) { c04runMode(c, fl, p, tz, false) }
 
+// c04tzFilter, when set, restricts a pass of c04runMode to the features it accepts.
+var c04tzFilter func(corpus.Feature) bool
+
 type violFn func(caseID, symptom, detail string, replay any)
 
 func c04runMode(c *Ctx, fl *featLab, p *pool, tz string, crossOnly bool) {
@@ -138,6 +148,9 @@ func c04runMode(c *Ctx, fl *featLab, p *pool, tz string, crossOnly bool) {
 		id := ids[i]
 		us := fl.Units[id]
 		h, cl := us[0], us[1]
+		if c04tzFilter != nil && !c04tzFilter(h.FP.Feat) {
+			return
+		}
 		base := "codec/" + id
 		if !c.Want(base) && c.Only != "" && len(c.Only) < len(base) {
 			return
